@@ -6,7 +6,7 @@ use crate::runner::*;
 use proptest::collection::vec;
 use proptest::prelude::*;
 use serde::{Deserialize, Serialize};
-use serde_json::json;
+use serde_json::{json, Value};
 
 /// a function call template with its documented arity
 #[derive(Clone, Debug, Serialize, Deserialize)]
@@ -720,10 +720,94 @@ impl Check for C18Reject {
     }
 }
 
+/// Every documented function under every name and alias, called with one argument too few and
+/// one too many, plain and in the (.f x ..) form, in four option positions: rejected before any
+/// I/O. The twin call with a documented number of arguments must be accepted, otherwise the
+/// case is not judged (so the rejection is due to the arity and nothing else).
+pub fn run_arity_all(ctx: &mut Ctx) {
+    use crate::ftab::FTAB;
+    let mut names: Vec<(&'static str, usize, usize)> = Vec::new();
+    for f in FTAB {
+        if f.file.contains("proccess/") {
+            continue;
+        }
+        names.push((f.name, f.min, f.max));
+        for a in f.aliases {
+            names.push((a, f.min, f.max));
+        }
+    }
+    const ATOMS4: &[&str] = &["1", ".", "\"s\"", ".a", "[1]", "null"];
+    let total = names.len() as u64 * 16;
+    let space = format!("all {} names and aliases x (one argument fewer than the minimum, one more than the maximum) x (plain, (.f ..) form) x 4 option positions", names.len());
+    run_enum(ctx, "C18.arity_all", total, &space, move |idx| {
+        let (name, min, max) = names[(idx / 16) as usize];
+        let (high, dot, slot) = ((idx & 1) == 1, (idx & 2) == 2, (idx >> 2) & 3);
+        let call = |n: usize| -> Option<String> {
+            // n = number of arguments the function receives
+            let args: Vec<&str> = (0..n).map(|i| ATOMS4[(i + idx as usize) % ATOMS4.len()]).collect();
+            if dot {
+                if n == 0 {
+                    return None;
+                }
+                Some(format!("(.{} {})", name, args[1..].join(" ")).replace(" )", ")"))
+            } else {
+                Some(format!("({} {})", name, args.join(" ")).replace(" )", ")"))
+            }
+        };
+        let (bad_n, good_n) = if high {
+            if max >= 999 {
+                let b: Box<dyn Fn() -> Value> = Box::new(|| Value::Null);
+                return (b, CaseResult::Discard("no maximum".into()));
+            }
+            (max + 1, max)
+        } else {
+            if min == 0 || (dot && min < 2) {
+                let b: Box<dyn Fn() -> Value> = Box::new(|| Value::Null);
+                return (b, CaseResult::Discard("no smaller call".into()));
+            }
+            (min - 1, min)
+        };
+        let opt = |t: &str| -> Vec<String> {
+            match slot {
+                0 => vec![format!("--select={} = c", t)],
+                1 => vec![format!("--filter={}", t), "--select=.a".into()],
+                2 => vec!["--select=.a".into(), format!("--sort-by={}", t)],
+                _ => vec![format!("--set=v={}", t), "--select=:v".into()],
+            }
+        };
+        let (Some(bad_t), Some(good_t)) = (call(bad_n), call(good_n)) else {
+            let b: Box<dyn Fn() -> Value> = Box::new(|| Value::Null);
+            return (b, CaseResult::Discard("form not applicable".into()));
+        };
+        let (bad, good) = (opt(&bad_t), opt(&good_t));
+        let mk_bad = bad.clone();
+        let mk: Box<dyn Fn() -> Value> = Box::new(move || json!({"args": mk_bad}));
+        let twin = run(&good, INPUT);
+        if !twin.res.is_ok() {
+            return (mk, CaseResult::Discard(format!("twin rejected: {}", twin.res.short())));
+        }
+        let out = run(&bad, INPUT);
+        let fail = |m: String| CaseResult::Fail(format!("{} [args {:?}; accepted twin {:?}]", m, bad, good));
+        let res = if out.res.is_panic() {
+            fail(format!("panic: {}", out.res.short()))
+        } else if out.res.is_ok() {
+            fail(format!("a call with {} arguments of a function documented with {}..{} was accepted; stdout {}", bad_n, min, if max >= 999 { "any".to_string() } else { max.to_string() }, esc_trunc(&out.stdout, 120)))
+        } else if !out.stdout.is_empty() {
+            fail(format!("something was written before the configuration error was reported: {}", esc_trunc(&out.stdout, 120)))
+        } else if out.stdin_opened != 0 {
+            fail("stdin was opened before the configuration error was reported".into())
+        } else {
+            CaseResult::Pass(Info::new(true).class(if high { "arity_max+1" } else { "arity_min-1" }).class_if(dot, "dot_form").obs(json!({"args": bad, "result": out.res.short()})))
+        };
+        (mk, res)
+    });
+}
+
 pub fn run_all(ctx: &mut Ctx) {
-    ctx.rule = "a generated valid configuration (0..3 --set incl. a macro, --split-by, --filter, 0..3 --select, 0..2 --sort-by, --group-by/--merge, --unique, --skip/--take, json/csv/text with matching style options; expressions = atoms or calls of 30 documented functions with nested arguments; random argument order) x ONE corruption of 15 kinds (unknown function, arity min-1 / max+1, missing ')', truncation strictly inside a call or literal, trailing garbage, bad direction, --set without '=', empty name, duplicate, unknown &name, csv without selection / with grouping, json option with csv/text, text option with json/csv) applied in a random option position. Oracle: the valid twin is accepted; the corrupted one returns Err, writes nothing to stdout, never invokes the stdin factory and never opens the input file (FIFO watcher). non-trivial = the corruption sits in an option processed after the output stage was built (set/split/filter/select/sort) or the style prints a header".into();
+    ctx.rule = "a generated valid configuration (0..3 --set incl. a macro, --split-by, --filter, 0..3 --select, 0..2 --sort-by, --group-by/--merge, --unique, --skip/--take, json/csv/text with matching style options; expressions = atoms or calls of 30 documented functions with nested arguments; random argument order) x ONE corruption of 15 kinds (unknown function, arity min-1 / max+1, missing ')', truncation strictly inside a call or literal, trailing garbage, bad direction, --set without '=', empty name, duplicate, unknown &name, csv without selection / with grouping, json option with csv/text, text option with json/csv) applied in a random option position. Oracle: the valid twin is accepted; the corrupted one returns Err, writes nothing to stdout, never invokes the stdin factory and never opens the input file (FIFO watcher). non-trivial = the corruption sits in an option processed after the output stage was built (set/split/filter/select/sort) or the style prints a header. C18.arity_all: every documented function under every name and alias x (one argument below the minimum, one above the maximum) x (plain, (.f ..) form) x (--select, --filter, --sort-by, --set value), enumerated; judged only when the twin call with a documented number of arguments is accepted; same oracle".into();
     ctx.assumptions = vec!["only corruptions that are invalid by the documented grammar are generated; corruptions that cannot be applied to a configuration are discarded (counted)".into()];
     C18Reject.run(ctx);
+    run_arity_all(ctx);
     let _ = std::fs::remove_dir_all(tmp_dir());
 }
 
